@@ -6,6 +6,7 @@ package main
 import (
 	"fmt"
 	"go/types"
+	"strings"
 )
 
 func (e *Exec) fieldArr(styp types.Type, fidx int) (string, string) {
@@ -316,6 +317,16 @@ func (e *Exec) oldRefs(st *State, t *Term, ty types.Type) *Term {
 		return c.And(fs...)
 	}
 	return c.True()
+}
+
+// fixSort adapts a sort string computed by the (mode-independent) write-set analysis to the float mode
+// of the function being verified.
+func (e *Exec) fixSort(s string) string {
+	if !e.tm.floatReal {
+		return s
+	}
+	s = strings.ReplaceAll(s, sortFP64, "Real")
+	return strings.ReplaceAll(s, sortFP32, "Real")
 }
 
 func hasRefs(ty types.Type) bool {
